@@ -540,6 +540,75 @@ fn pos<const M: usize>(it: &SkipListIterator<u64, u64, M>) -> String {
     }
 }
 
+/// sk-iso: one thread, hooks off.  The same program (keys are SIGNED decimals here: i<k> c<k> s<k> F L N P) runs on
+/// a SkipList<i64, ..> with the keys as given - some of them order BELOW K::default() - and on a
+/// SkipList<u64, ..> with every key shifted by 2^63 (an order isomorphism onto keys that are all >=
+/// the default, which is the instantiation the model's event traces cover).  Output: the two output
+/// lists (keys printed as the signed originals) and the two final iterations; they must be equal.
+fn iso_run<K: Eq + Ord + Default + Copy, const M: usize>(body: &str, to: impl Fn(i64) -> K, from: impl Fn(K) -> i64) -> String {
+    let r = catch_unwind(AssertUnwindSafe(|| {
+        let sl: SkipList<K, u64, M> = SkipList::default();
+        let mut it = sl.iter();
+        let mut outs: Vec<String> = vec![];
+        let show = |it: &SkipListIterator<K, u64, M>| {
+            if it.is_valid() {
+                let k = from(*it.key());
+                if *it.value() != (k as u64).wrapping_mul(3) { format!("K{}!badvalue", k) } else { format!("K{}", k) }
+            } else {
+                "K-".to_string()
+            }
+        };
+        for t in body.split(',').map(|x| x.trim()).filter(|x| !x.is_empty()) {
+            let arg = |t: &str| -> i64 { t[1..].parse().expect("iso key") };
+            match t.as_bytes()[0] {
+                b'i' => {
+                    let k = arg(t);
+                    sl.insert(to(k), (k as u64).wrapping_mul(3));
+                    outs.push(format!("I{}", k));
+                }
+                b'c' => outs.push(format!("B{}", sl.contains(&to(arg(t))) as u8)),
+                b's' => {
+                    it.seek(&to(arg(t)));
+                    outs.push(show(&it));
+                }
+                b'F' => {
+                    it.seek_to_first();
+                    outs.push(show(&it));
+                }
+                b'L' => {
+                    it.seek_to_last();
+                    outs.push(show(&it));
+                }
+                b'N' => {
+                    it.next();
+                    outs.push(show(&it));
+                }
+                b'P' => {
+                    it.prev();
+                    outs.push(show(&it));
+                }
+                _ => panic!("bad iso op"),
+            }
+        }
+        let mut fin = vec![];
+        let mut it2 = sl.iter();
+        it2.seek_to_first();
+        while it2.is_valid() && fin.len() < 100000 {
+            fin.push(from(*it2.key()).to_string());
+            it2.next();
+        }
+        format!("{} = {}", outs.join(","), fin.join(","))
+    }));
+    r.unwrap_or_else(|_| "PANIC".to_string())
+}
+
+fn iso_case<const M: usize>(body: &str) -> String {
+    MODE.store(0, Ordering::SeqCst);
+    let a = iso_run::<i64, M>(body, |k| k, |k| k);
+    let b = iso_run::<u64, M>(body, |k| (k as i128 + (1i128 << 63)) as u64, |k| (k as i128 - (1i128 << 63)) as i64);
+    format!("ISO i64[ {} ] u64[ {} ]", a, b)
+}
+
 struct Done(usize);
 impl Drop for Done {
     fn drop(&mut self) {
@@ -1716,6 +1785,10 @@ fn main() {
             }
             "sk-life" => {
                 let l = with_maxh!(maxh, life_case, &body);
+                writeln!(out, "{}", l).unwrap();
+            }
+            "sk-iso" => {
+                let l = with_maxh!(maxh, iso_case, &body);
                 writeln!(out, "{}", l).unwrap();
             }
             "ls-sched" | "ls-free" => {
